@@ -52,10 +52,17 @@ def case_strategy(draw, variant):
         if v["dtype"].endswith("[ns]"):
             v["vals"] = [None if x is None else x % (2 * 10**17) for x in v["vals"]]
         vals.append(v)
+    int_nulls = variant == "i" and draw(st.sampled_from([True, False, False]))
+    if int_nulls:
+        # nullable integer column (pandas Int64) in which whole groups may be null: listed labels depend on keys and mask only
+        nullcol = draw(S.value_column(n, dtypes=("float64",), regime="exact", null_modes=["some", "heavy", "heavy", "all"]))
+        vals[0] = {"dtype": "int64", "name": None, "nullable": True, "vals": [None if x is None else int(x * 8) % 1000 - 500 for x in nullcol["vals"]]}
     if nv == 1:
         vals_as = draw(st.sampled_from(["np", "series_named", "series_unnamed", "list_scalars", "list1", "dict", "df"]))
+        if int_nulls and vals_as == "list_scalars":
+            vals_as = "series_unnamed"
     else:
-        vals_as = draw(st.sampled_from(["list", "list_named", "dict", "df", "2d"]))
+        vals_as = draw(st.sampled_from(["list", "list_named", "dict", "df", "2d"] if not int_nulls else ["list", "list_named", "dict", "df"]))
         if vals_as == "2d":
             vals = [dict(v, dtype=vals[0]["dtype"]) for v in vals]
             for v in vals[1:]:
@@ -103,7 +110,7 @@ def value_objects(case):
     """-> (argument, expected column names or None for 1-D, list of single-input objects)"""
     how = case["vals_as"]
     vs = case["vals"]
-    arrs = [data.render_val(v, "np") for v in vs]
+    arrs = [data.render_val(v, "series_nullable" if v.get("nullable") else "np") for v in vs]
     style = case.get("names", "str")
     if style != "str":
         # integer / falsy labels (0, False ...) are names like any other
@@ -177,7 +184,7 @@ def check(case, ctx):
     nt = (first_app != sorted(first_app, key=sk)) or bool(unobserved) or len(case["vals"]) >= 2
     ctx.seen("shape", case, nt, [f"op:{op}", f"sort:{case['sort']}", f"observed_only:{case['observed_only']}", f"keys_as:{case['keys_as']}",
                                  f"vals_as:{case['vals_as']}", f"layout:{case.get('layout')}", f"names:{case.get('names')}", f"nkeys:{len(case['keys'])}", "mask:" + (case["mask"]["kind"] if case["mask"] else "none"),
-                                 f"unobserved:{bool(unobserved)}"] + [f"keytype:{k['t']}" for k in case["keys"]])
+                                 f"unobserved:{bool(unobserved)}", f"nullable-int-values:{bool(case['vals'][0].get('nullable'))}"] + [f"keytype:{k['t']}" for k in case["keys"]])
     # ---- container shape
     if op == "size":
         colnames, sname_expected = None, None
@@ -227,6 +234,9 @@ def check(case, ctx):
         if op == "size":
             exp = {l: len(ps) for l, ps in groups.items()}
         else:
+            if vspec.get("nullable"):
+                # small integers with nulls: the numbers are exact in any numeric dtype the library answers in
+                vspec = dict(vspec, dtype="float64", vals=[None if x is None else float(x) for x in vspec["vals"]])
             exp = gbops.expected_reduction(case, op, vspec, groups)
             pv = data.val_py(vspec)
         for lab in got_labels:
